@@ -256,6 +256,43 @@ def string_section(b, tier):
                 d.derives = list(ARB)
 
 
+def string_expr_section(b, tier):
+    """length bounds given as expressions (the generator does arithmetic on them: `min + 16` when there is no maximum, `min * size_of::<char>()` ...)"""
+    sup = "const A: usize = 32; const B: usize = 31; const N: usize = 3; const M: usize = 9;"
+    mins = [("A | B", 63), ("(A | B)", 63), ("N", 3), ("N + 1", 4), ("N & 2", 2), ("N ^ 1", 2), ("M - N", 6), ("{ N }", 3), ("if N > 1 { 2 } else { 1 }", 2), ("N as usize", 3), ("M / 4", 2), ("1 + 2", 3), ("(N)", 3),
+            ("N.pow(2)", 9), ("usize::MIN + 2", 2), ("0x03", 3)]
+    maxs = [(None, None), ("70", 70), ("A + B + 7", 70), ("(M * 8)", 72), ("M << 3", 72), ("64 | 6", 70)]
+    i = 0
+    for (mt, mv) in mins:
+        for (xt, xv) in maxs:
+            for sl in ([], ["trim"], ["lowercase", "trim"]):
+                i += 1
+                if tier == "quick" and i % 3 != 0:
+                    continue
+                d = b.new(inner_string(), tags=["C09"])
+                d.support.append(sup)
+                for s_ in sl:
+                    d.sans.append(San(s_))
+                items = [Vld("len_char_min", mt, mv)]
+                if xt:
+                    items.append(Vld("len_char_max", xt, xv))
+                if i % 2:
+                    items.reverse()
+                if i % 5 == 0:
+                    items.insert(i % (len(items) + 1), Vld("not_empty"))
+                d.vals = items
+                d.derives = list(ARB)
+    # a maximum only, as an expression
+    for (xt, xv) in (("N | 4", 7), ("M - N", 6), ("(N + 1)", 4), ("N << 1", 6)):
+        for sl in ([], ["trim"]):
+            d = b.new(inner_string(), tags=["C09"])
+            d.support.append(sup)
+            for s_ in sl:
+                d.sans.append(San(s_))
+            d.vals = [Vld("len_char_max", xt, xv)]
+            d.derives = list(ARB)
+
+
 def other_section(b, tier):
     for key in ("opt", "arr", "fvec"):
         d = b.new(OTHER_INNERS[key], tags=["C09"])
@@ -284,5 +321,6 @@ def build(tier, seed):
     int_section(b, tier)
     float_section(b, tier)
     string_section(b, tier)
+    string_expr_section(b, tier)
     other_section(b, tier)
     return b.decls
